@@ -10,12 +10,13 @@ def tu_check(tu):
     sa = rg.seek_algebra(tu)
     bn = rg.bound_norm_c(tu)
     unb = rg.c_unbounded_table(tu)
-    return dict(unb={repr(k): v for k, v in unb.items()}, range={repr(k): v for k, v in t.items()}, seek=sa, findings=bn["findings"], bn=bn["n"])
+    cross = rg.c_cross_table(tu)
+    return dict(cross={repr(k): v for k, v in cross.items()}, unb={repr(k): v for k, v in unb.items()}, range={repr(k): v for k, v in t.items()}, seek=sa, findings=bn["findings"], bn=bn["n"])
 
 
 def run(tier="quick", seed=0, use_cache=True):
     res = engine.Result("C02")
-    res.rules = ["RANGE-TABLE", "BOUND-NORM", "SEEK-ALGEBRA", "ITER-CONTINUE", "TREE-EXCLUDE", "UNBOUNDED-END", "RANGE-SHAPE"]
+    res.rules = ["RANGE-TABLE", "BOUND-NORM", "SEEK-ALGEBRA", "ITER-CONTINUE", "TREE-EXCLUDE", "UNBOUNDED-END", "RANGE-SHAPE", "ENDS-CROSS"]
     res.exhaustive = True
     res.explanation = (
         "Leaf-level and cursor-level pieces of the range machinery, decided "
@@ -41,7 +42,13 @@ def run(tier="quick", seed=0, use_cache=True):
         "walked symbolically for every (exclusive, end leaf has several "
         "entries, chain has one leaf); the end must be FIRST[0] / FIRST[1] / "
         "NEXT(FIRST)[0] / empty (mirror image for the high end) and may not "
-        "depend on the root's child count. "
+        "depend on the root's child count. ENDS-CROSS: decision table of the "
+        "emptiness tests BTree_rangeSearch runs once both end positions are "
+        "known, over (min given, excludemin, max given, excludemax, ends in "
+        "the same leaf): same leaf -> offsets compared; different leaves -> "
+        "the two end keys are compared whenever both ends were moved inward "
+        "(given bound or exclusive omitted bound), and crossed ends lead to "
+        "the empty result. "
         "The tree-level endpoint search with its move-left/right repair "
         "(BTree_findRangeEnd, _findbucket) and reachable tree shapes are not "
         "decided.")
@@ -96,6 +103,25 @@ def run(tier="quick", seed=0, use_cache=True):
                            "chain (next == NULL / last == first), not of the root's "
                            "child count" % (which, "low" if which == "min" else "high",
                                             "first" if which == "min" else "last"), path=[]), fam)
+        for key in itertools.product((True, False), repeat=5):
+            n += 1
+            got = r["cross"][repr(key)]
+            want = rg.c_cross_spec(*key)
+            if not set(want) <= set(got):
+                mg, emin, xg, emax, same = key
+                res.findings.add(dict(
+                    rule="ENDS-CROSS", function="BTree_rangeSearch",
+                    file="src/BTrees/BTreeTemplate.c", line=1,
+                    construct="min %s%s, max %s%s, ends in %s: tests %s (required %s)" % (
+                        "given" if mg else "omitted", ", exclusive" if emin else "",
+                        "given" if xg else "omitted", ", exclusive" if emax else "",
+                        "the same leaf" if same else "different leaves", got or "none", want),
+                    detail="both ends of the range were moved inward (by a given "
+                           "bound or by excluding the first / last key), so they "
+                           "may have crossed; without the %s comparison a crossed "
+                           "pair of positions is returned as a non-empty range "
+                           "that wraps around" % ("offset" if same else "end-key"), path=[]), fam)
+    res.count("ENDS-CROSS", 32 * len(out))
     res.count("UNBOUNDED-END", 16 * len(out))
     res.count("RANGE-TABLE", 8 * len(out))
     res.count("SEEK-ALGEBRA", len(spec_seek) * len(out))
